@@ -33,6 +33,7 @@ func Minimise(t *testing.T, bind *Binding, c *Case, job *Job, same func([]model.
 		if time.Now().After(deadline) {
 			return false
 		}
+		progress(job, "minimise")
 		vs, _ := RunCase(t, bind, cand, job.TmpDir)
 		if same(vs) != nil {
 			best = cand
